@@ -165,8 +165,9 @@ def _history(k, kinds, names, vals):
             except KeyError:
                 a = None
             if a is not None:
-                # the address may legitimately still resolve if the Addr object it maps to is alive
-                if not (a.name in model and am.addr.get(a.name) is a and str(a.ip) == ipx):
+                # three-valued: an address that was *replaced* (not expired) may still resolve to the
+                # live mapping object of its name; the statement only rules out expired/dropped ones
+                if not (a.name in model and am.addr.get(a.name) is a):
                     return 'expired-or-replaced-mapping-still-found-by-address: step %d address %s' % (i, ipx)
         for n in NAMES:
             got_a = sum(1 for ev in rec.log if ev == ('added', n))
